@@ -179,6 +179,13 @@ def run_pass_kill(res, ast):
                 if pm.match_expr(l, "for (__v_i, &__v_inst) in self.insts.iter().enumerate() { if let " + alt +
                                  " = __v_inst { self.is_target[__v_i.wrapping_add_signed(__v_off)] = true; } }"):
                     okb = True
+                if pm.match_expr(l, "for (__v_i, __v_inst) in self.insts.iter().enumerate() { if let " + alt +
+                                 " = *__v_inst { self.is_target[__v_i.wrapping_add_signed(__v_off)] = true; } }"):
+                    okb = True
+                # the same walk written with an index
+                if pm.match_expr(l, "for __v_i in 0..self.insts.len() { if let " + alt +
+                                 " = self.insts[__v_i] { self.is_target[__v_i.wrapping_add_signed(__v_off)] = true; } }"):
+                    okb = True
         sized = bool(pm.find_expr(rb["body"], "self.is_target.resize(self.insts.len() + 1, false)"))
         res.check(okb and sized, "PASS-KILL", f"{BC}|record_branch_targets", where(BC, rb, "record_branch_targets"),
                   "record_branch_targets must mark insts[i + off] for every BrZ and every BrNZ (one entry per instruction plus the end): "
@@ -235,8 +242,19 @@ def run_c11(res, ast, rules=("TEMPS-BY-CONSTRUCTION", "WINDOW-BY-CONSTRUCTION", 
             okg = len(gm) == 1 and bool(pm.find_expr(gm[0]["node"]["body"], "if let Loc::Tmp(__v_t) = __v_l { *__v_t + 1 } else { 0 }")) and ".max()" in T(ast, gm[0]["node"]["body"])
             res.check(okg, "TEMPS-BY-CONSTRUCTION", f"{BC}|get_max", where(BC, gm[0]["node"], "get_max") if gm else BC,
                       "get_max must map Loc::Tmp(t) to t + 1 (else 0) and take the maximum")
-            res.check(".max()" in T(ast, ct["body"], 2000).split("get_max")[-1] or T(ast, ct["body"], 2000).rstrip("}").endswith(".max().unwrap_or(0)"),
-                      "TEMPS-BY-CONSTRUCTION", f"{BC}|count_temps|fold", where(BC, ct, "count_temps"), "count_temps must fold the per-instruction values with max")
+            # the per-instruction values are folded with max over *all* instructions: iterator chain or running-maximum loop
+            tail = ct["body"]["stmts"][-1] if ct["body"]["stmts"] else None
+            fold = False
+            if tail is not None and tail["t"] == "ExprStmt" and not tail["semi"]:
+                fold = pm.match_expr(tail["expr"], "self.insts.iter().map(__e_f).max().unwrap_or(0)") is not None
+            if not fold:
+                body_ = [s_ for s_ in ct["body"]["stmts"] if s_["t"] not in ("Fn", "Item")]
+                for upd in ("if __v_n > __v_acc { __v_acc = __v_n; }", "if __v_acc < __v_n { __v_acc = __v_n; }", "__v_acc = __v_acc.max(__v_n);", "__v_acc = __v_n.max(__v_acc);",
+                            "__v_acc = max(__v_acc, __v_n);"):
+                    for src_ in ("&self.insts", "self.insts.iter()"):
+                        if pm.match_stmts(body_, "let mut __v_acc = 0; for __v_inst in " + src_ + " { let __v_n = __e_m; " + upd + " } __v_acc") is not None:
+                            fold = True
+            res.check(fold, "TEMPS-BY-CONSTRUCTION", f"{BC}|count_temps|fold", where(BC, ct, "count_temps"), "count_temps must fold the per-instruction values with max")
             tr = ast.fn(BC, "translate")["node"]
             cgn = [l_["pat"]["name"] for l_ in walk_t(tr["body"], "Local") if l_["pat"]["t"] == "PIdent" and l_["init"] is not None
                    and strip_paren(l_["init"])["t"] == "StructExpr" and strip_paren(l_["init"])["path"]["name"] == "CodeGen"]
@@ -429,7 +447,7 @@ def run_c11(res, ast, rules=("TEMPS-BY-CONSTRUCTION", "WINDOW-BY-CONSTRUCTION", 
                      and T(ast, l["expr"]["expr"]) == "0..self.insts.len()"]
             okp = False
             if len(loops) == 1:
-                top = [s for s in loops[0]["expr"]["body"]["stmts"] if s["t"] == "ExprStmt" and pm.match_expr(s["expr"], "self.live.push(__v_l)")]
+                top = [s for s in loops[0]["expr"]["body"]["stmts"] if s["t"] == "ExprStmt" and pm.match_expr(s["expr"], "self.live.push(__e_l)")]
                 allp = [m for m in walk_t(at["body"], "MethodCall") if m["method"] == "push" and T(ast, m["receiver"]) == "self.live"]
                 conts = [c for c in walk_t(loops[0]["expr"]["body"], "Continue", "Break")]
                 conts = [c for c in conts if not inside_inner_loop(loops[0]["expr"], c)]
